@@ -74,6 +74,11 @@ func newAmmWorld(rng *Rng, out *Out, nUsers int, blockedIdx int) *ammWorld {
 	w.app.ClpKeeper.SetSwapFeeParams(w.ctx, &clptypes.SwapFeeParams{DefaultSwapFeeRate: sdk.NewDecWithPrec(3, 3)})
 	w.app.ClpKeeper.SetClpWhiteList(w.ctx, []sdk.AccAddress{w.users[0]})
 	w.cfg("whitelist " + w.users[0].String())
+	// margin: no pool enabled at the start; the removal-queue threshold is whatever genesis says
+	mp := w.app.MarginKeeper.GetParams(w.ctx)
+	mp.Pools = []string{}
+	w.app.MarginKeeper.SetParams(w.ctx, &mp)
+	w.cfg("removalthreshold " + mp.RemovalQueueThreshold.BigInt().String())
 	// module accounts are blocked recipients
 	if blockedIdx >= 0 {
 		w.cfg("block " + w.users[blockedIdx].String())
@@ -365,7 +370,22 @@ func (w *ammWorld) step() {
 func (w *ammWorld) policy() {
 	rng := w.rng
 	k := w.app.ClpKeeper
-	switch rng.Intn(8) {
+	switch rng.Intn(10) {
+	case 8: // enable / disable margin on a pool (x/margin params.Pools)
+		w.setMarginPool(ammTokens[rng.Intn(len(ammTokens))], rng.Chance(2, 3))
+	case 9: // the pool-health threshold below which removals from a margin-enabled pool are refused
+		var t *big.Int
+		switch rng.Intn(4) {
+		case 0:
+			t = big.NewInt(0)
+		case 1:
+			t = new(big.Int).Quo(pow18, big.NewInt(10))
+		case 2:
+			t = new(big.Int).Set(pow18)
+		default:
+			t = rng.Rate01()
+		}
+		w.setRemovalThreshold(t)
 	case 7: // margin bookkeeping on a pool (what x/margin's Borrow / TakeInCustody / Repay leave behind)
 		w.randomPoolMargin()
 	case 0:
@@ -448,6 +468,29 @@ func (w *ammWorld) policy() {
 		k.SetProviderDistributionParams(w.ctx, &clptypes.ProviderDistributionParams{DistributionPeriods: []*clptypes.ProviderDistributionPeriod{{DistributionPeriodBlockRate: decRaw(rate), DistributionPeriodStartBlock: start, DistributionPeriodEndBlock: stop, DistributionPeriodMod: mod}}})
 		w.cfg(fmt.Sprintf("lppd %d %d %s %d", start, stop, rate, mod))
 	}
+}
+
+func (w *ammWorld) setMarginPool(sym string, on bool) {
+	mp := w.app.MarginKeeper.GetParams(w.ctx)
+	var l []string
+	for _, p := range mp.Pools {
+		if p != sym {
+			l = append(l, p)
+		}
+	}
+	if on {
+		l = append(l, sym)
+	}
+	mp.Pools = l
+	w.app.MarginKeeper.SetParams(w.ctx, &mp)
+	w.cfg("marginpool " + sym + " " + b2s(on))
+}
+
+func (w *ammWorld) setRemovalThreshold(t *big.Int) {
+	mp := w.app.MarginKeeper.GetParams(w.ctx)
+	mp.RemovalQueueThreshold = decRaw(t)
+	w.app.MarginKeeper.SetParams(w.ctx, &mp)
+	w.cfg("removalthreshold " + t.String())
 }
 
 // poolMargin writes the margin fields of a pool the way x/margin does: liabilities are pure bookkeeping
